@@ -19,8 +19,8 @@
   request_reset_ex(); the condition cache, reset in response.c; tmp_sce; state) stay untouched.
 -/
 import LtVerif.Model.Basic
-namespace LtVerif
-open B
+namespace LtVerif.Req
+open LtVerif LtVerif.B
 
 abbrev Buf := Option Bytes
 
@@ -71,6 +71,9 @@ inductive SrvName
   | h2r (n : Nat)  -- inherited pointer of the connection request (h2_init_stream)
 deriving Repr, DecidableEq
 
+/-- what a module keeps in its r->plugin_ctx slot (mod_setenv: the header list that matched) -/
+abbrev PCtx := List (Bytes × Bytes)
+
 /-- header id (enum http_header_e); 0 = HTTP_HEADER_OTHER -/
 abbrev HId := Nat
 
@@ -87,7 +90,7 @@ structure ReqSt where
   method : Int := -1                    -- HTTP_METHOD_UNSET
   version : Int := -1                   -- HTTP_VERSION_UNSET
   handlerModule : Bool := false         -- r->handler_module != NULL
-  pluginCtx : List Bool := []           -- r->plugin_ctx[i] != NULL
+  pluginCtx : List (Option PCtx) := []  -- r->plugin_ctx[i] (NULL = none)
   conValid : Nat := 0                   -- r->conditional_is_valid
   condCache : List CondEnt := []
   conf : Conf := {}
@@ -142,7 +145,7 @@ deriving Repr, DecidableEq
 
 /-- request_init_data() on a zeroed object -/
 def ReqSt.init (e : SrvEnv) : ReqSt :=
-  { pluginCtx := List.replicate (e.nPlugins + 1) false,
+  { pluginCtx := List.replicate (e.nPlugins + 1) none,
     condCache := List.replicate e.nContexts {},
     conf := e.defaults }
 
@@ -267,7 +270,7 @@ def responseReset (h : HdrIds) (s : ReqSt) : ReqSt :=
 
 /-- plugins_call_handle_request_reset(): every module that keeps per-request state in
     r->plugin_ctx[id] clears its slot in its handle_request_reset hook -/
-def pluginsReset (s : ReqSt) : ReqSt := { s with pluginCtx := s.pluginCtx.map fun _ => false }
+def pluginsReset (s : ReqSt) : ReqSt := { s with pluginCtx := s.pluginCtx.map fun _ => none }
 
 /-- request_reset() -/
 def requestReset (h : HdrIds) (e : SrvEnv) (s : ReqSt) : ReqSt :=
@@ -311,4 +314,4 @@ def h2InitStream (h2r : ReqSt) (swin : Nat) (s : ReqSt) : ReqSt :=
                          | .h2r n => .h2r n,
            conf := h2r.conf }
 
-end LtVerif
+end LtVerif.Req
